@@ -375,6 +375,9 @@ class World:
         self.post_crash = {"c": None, "s": None}   # how an end's loop died after the cut
         self.noise = None
         self.eager_quiet = False
+        self.since_pong = {"c": 0, "s": 0}
+        self.asked = {"c": False, "s": False}
+        self.over_budget = []
         self.log = []               # micro-step events (model input)
         self.real_snaps = []        # canonical states at each S
         self.real_waits = []
@@ -595,6 +598,9 @@ class World:
         o_send = m.send
 
         def gp(channel, cmd, data):
+            if cmd == 0x4202:
+                w.since_pong[side] = 0
+                w.asked[side] = False
             w.rec = {"conn": "d", "recv": "a", "send": "a", "shut": "1"}
             idx = len(w.log)
             w.log.append(None)
@@ -605,6 +611,15 @@ class World:
 
         def send(channel, cmd, data):
             w.sent_log[side].append((cmd, len(data), bool(m.too_full)))
+            # the harness's own count of what this end has queued since the last acknowledgement
+            if cmd == 0x4206 and w.latency and not w.asked[side]:
+                slack = 2048 * 4 * max(1, len(w.prox[side])) + 128
+                if w.since_pong[side] > w.lbs + slack:
+                    w.over_budget.append({"side": side, "queued_since_ack": w.since_pong[side], "budget": w.lbs,
+                                          "allowance": w.lbs + slack})
+            if cmd == 0x4201 and bytes(data) == b"rttest":
+                w.asked[side] = True
+            w.since_pong[side] += len(data)
             return o_send(channel, cmd, data)
         m.got_packet = gp
         m.send = send
@@ -1111,6 +1126,11 @@ def check_oracles(w):
                     out["C02"].append(("quiescent, yet a finished flow still has its handler (and its socket): "
                                        "the last flag was set by pre_select, no callback follows",
                                        {"side": side, "flow": f, "ok": bool(p.ok), "finding_id": "F20"}))
+    # latency control on: an end never queues stream payload far beyond its budget without having asked for an
+    # acknowledgement (budget + 2048 bytes per callback, at most 4 callbacks per connection and iteration)
+    for ob in getattr(w, "over_budget", [])[:1]:
+        out["C09"].append(("stream payload queued beyond the configured budget plus the per-iteration allowance without a "
+                           "round-trip request having been sent", ob))
     # an end that is still paused when nothing moves any more has no acknowledgement to wait for
     if getattr(w, "calm", 0) >= 3 and not w.crash and w.latency:
         for side in ("c", "s"):
